@@ -39,7 +39,21 @@ negative controls at specification level (run in every check): ClampReadline = F
            as before commit f810caf) must violate Refines/SameResult; thorough also PadOdd = FALSE
            (IndexExact) and SeekFirst = FALSE (Refines/SameResult/Isolation); SharedHandlePerPath =
            TRUE must violate FreshSeesOwn (every run); IterYieldsAll = FALSE (__iter__ as before commit
-           225a5e1: one line per iterator) must violate Refines/SameResult (every run).
+           225a5e1: one line per iterator) must violate Refines/SameResult (every run); TrustFd = TRUE (the
+           index walk believes the size of the descriptor underneath the file object) must violate IndexExact
+           (every run).
+kinds of file object (spec/ArMember.tla, variable fdk; harness/fobj_c06.py): ArFile(fileobj=f) takes any seekable
+           binary file object.  The model separates the byte stream f presents from what is underneath it (no
+           descriptor / a regular file holding exactly the stream / a descriptor naming a smaller or a larger
+           file) and states that the index and every member result are independent of it; TLC emits every index
+           case per (mode, fdk) (IOPEN lines) and the replay hands ArFile a real file object of that class.  All
+           other legs rotate the shared file object over the same kinds (pick_mode): io.BytesIO, buffered and
+           unbuffered real files, io.BufferedReader over short-read raw streams (with and without fileno()),
+           gzip.GzipFile / bz2.BZ2File / lzma.LZMAFile over the compressed archive, tempfile.SpooledTemporaryFile
+           (in memory / rolled over), tarfile's extractfile() object, zipfile's ZipExtFile (<= 500-byte archives, see
+           fobj_c06.py), a buffered window into a larger container file.  The kind is part of the recorded mode
+           ("shared:gzip"), so a replayed case uses the same one.  Expectations do not depend on the kind (TLC's case
+           / the trace validated by TLC / io.BytesIO are the same).
 domain (DESIGN D4): read() / read(n) with n >= 1 or n < 0 (read(0) excluded), readline(n) any n,
            readlines() without hint, seek(off, whence) with a non-negative target; the return
            value of seek() is not compared (ArMember.seek returns None like Python 2 files).
@@ -50,8 +64,13 @@ traces (TLC) and the size-stress leg; variants of one abstract call rotate call 
 objects are created through one variant and queried through others within one history.
   ArFile(filename) positional / filename= / (filename, "r") / mode="r" keyword
                                    all by-name legs, rotating per session (open_arfile)
-  ArFile(fileobj=f) / (None, "r", f) / mode=, fileobj= keywords; f = io.BytesIO or a real file object
-                                   "shared" sessions of all legs; real file objects in the process-level leg
+  ArFile(fileobj=f) / (None, "r", f) / mode=, fileobj= keywords; f = every kind of seekable binary file object
+                                   (13 kinds, see "kinds of file object" above) -- "shared:<kind>" sessions of all
+                                   legs, the class of the kind chosen by TLC in the index cases; file / unbuffered file /
+                                   short-read buffered reader on the path itself in the process-level leg
+  ArFile(fileobj=f), f non-seekable (pipe, socket), a RAW stream with short reads, mmap.mmap, a text-mode file
+                                   out of domain: ArFile needs seek/tell, reads the 60-byte header with ONE read(60),
+                                   calls readline(size) (mmap.readline takes no argument) and compares bytes
   ArFile(filename AND fileobj)     out of domain: undocumented combination (filename wins, fileobj ignored)
   ArFile(mode != "r")              out of domain: "the only supported mode is 'r'" (no index is built)
   ArFile(encoding=, errors=)       index replay + recorded traces: names beyond ASCII (NFC/NFD twins, singletons,
@@ -98,6 +117,12 @@ size stress (notes/SIZE_STRESS.md): K-scaled replay of TLC's cases (cells of 127
            with 100 members and members up to 257 bytes (TLC scans them; -Xss64m); the size-stress leg (members of
            0/1/2/4 KiB/8 KiB/64 KiB/128 KiB/1 MiB +-1, arguments around the buffer sizes, many interleaved seeks)
            is judged against io.BytesIO only.
+block-boundary alignment (SIZE_STRESS part 4): the aligned leg builds archives in which the end of a member's data, the
+           end of a line inside a member, the start of a member's data, the start of a member header or the end of the
+           archive falls at offset 2^k - 1, 2^k, 2^k + 1 (k = 9..17) of the archive FILE, and scripts every call form to
+           start at, one/two before, one after and to END at that offset (interleaved with another member), through every
+           kind of file object and by name; judged against io.BytesIO (ctx.extra["aligned_cases"]; the kinds used are
+           counted in ctx.extra["file_object_kinds"], what is underneath them in "file_object_descriptor_vs_stream").
 """
 import io
 import json
@@ -106,12 +131,13 @@ import subprocess
 import sys
 
 import core
+import fobj_c06 as fobj
 from lts import LTS, skey, strip
 
 MANIFEST = dict(
     technique="TLA+ spec (ArMemberRef reference with io.BytesIO semantics + ArMember implementation layer over a flat cell archive) model-checked by TLC; complete reference LTS and index cases replayed on real archives through ArFile(fileobj) and ArFile(filename) with io.BytesIO as second oracle; recorded histories validated by TLC (TraceArMember)",
     text="TLC explores the closed state space of the implementation-level model of arfile.py (archive as one flat cell sequence with headers and pad bytes, index walk, per-member offset/end/cur, one shared or per-member file position) for every archive of up to 2 members with up to 3 data bytes over {newline, other} and checks in every reachable state / on every transition that it refines independent BytesIO-like files (same cells returned, same positions), that no cell outside the member is returned and that the member table is exact, i.e. for interleaved histories of any length over that alphabet. The binding is two-way: every transition of the reference LTS, random interleaved walks and the emitted index cases (duplicate names, empty/odd/even sizes, 0 members) are replayed on real archives in both opening modes with all members' tell() compared after each call, and random histories on larger archives (5 members, 64 bytes, archives written by GNU ar) are validated by TLC against the same actions. A process-level model (ArMemberProc: path contents, ArFile objects, rewrite of a path in place or by rename, close) is model-checked and its complete LTS replayed on real files, and all by-name legs re-use a handful of path names with earlier archives' members left unclosed, so that what an archive opened by name returns cannot silently depend on what the process opened under that name before.",
-    note="Small-scope: model archives have <= 2 members x <= 3 cells (index: <= 3 members); concretization of cells to bytes (1-5 bytes per cell, arbitrary non-newline bytes) is sampled. Domain D4: read(0) excluded, non-negative seek targets, readlines(h>=1) advisory (any complete-line result reaching the hint or the end); seek()'s return value is not compared. list(member)/for-loops must yield every remaining line (the single-line generator found by this check was repaired in 225a5e1; the old behaviour is a spec-level negative control and a history mutant). Member sizes beyond 257 bytes are judged through K-scaled TLC cases and io.BytesIO, not scanned by TLC. Trusted: TLC, the harness' ar writer, io.BytesIO. Members of an archive whose file was replaced underneath them are unspecified (executed, not judged). Spec-level negative controls (ClampReadline/PadOdd/SeekFirst = FALSE, SharedHandlePerPath = TRUE) and corrupted control traces are required to fail in every run.",
+    note="Small-scope: model archives have <= 2 members x <= 3 cells (index: <= 3 members); concretization of cells to bytes (1-5 bytes per cell, arbitrary non-newline bytes) is sampled. Domain D4: read(0) excluded, non-negative seek targets, readlines(h>=1) advisory (any complete-line result reaching the hint or the end); seek()'s return value is not compared. list(member)/for-loops must yield every remaining line (the single-line generator found by this check was repaired in 225a5e1; the old behaviour is a spec-level negative control and a history mutant). Member sizes beyond 257 bytes are judged through K-scaled TLC cases and io.BytesIO, not scanned by TLC. Trusted: TLC, the harness' ar writer, io.BytesIO. Members of an archive whose file was replaced underneath them are unspecified (executed, not judged). The shared file object rotates over every kind ArFile(fileobj=) accepts (in-memory, buffered / unbuffered / short-read real files, gzip/bz2/lzma wrappers, spooled files, tar and zip members, a window into a container); the model's variable fdk (what the descriptor underneath says) is part of every emitted index case. zipfile.ZipExtFile only for archives <= 500 bytes (its readline(limit) overshoots in CPython 3.12). Spec-level negative controls (ClampReadline/PadOdd/SeekFirst = FALSE, SharedHandlePerPath = TRUE, TrustFd = TRUE) and corrupted control traces are required to fail in every run.",
     design="5 (C06)")
 
 AR_BIN = "/usr/bin/ar"
@@ -268,6 +294,12 @@ class Arch:
     def drop(self):
         pass                         # pool paths are re-used on purpose; ctx.work is removed at exit
 
+    def forms(self, ctx):
+        """the files holding this archive for the various kinds of file object (harness/fobj_c06.py)"""
+        if getattr(self, "_forms", None) is None:
+            self._forms = fobj.Forms(ctx, self.blob)
+        return self._forms
+
     def to_json(self):
         j = {"blob": self.blob, "style": self.style, "members": [dict(m) for m in self.members],
              "encoding": self.encoding, "errors": self.errors}
@@ -419,8 +451,9 @@ def open_arfile(arch, mode, path, fobj, variant):
 
 class Session:
     """an opened archive + one io.BytesIO per member as the reference library.
-    mode: "shared" = ArFile(fileobj=io.BytesIO), "byname" = ArFile(filename=path),
-          "fileobj" = ArFile(fileobj=open(path, "rb")) (a real file object on the same path)"""
+    mode: "shared:<kind>" = ArFile(fileobj=<a file object of that kind presenting the archive>) -- every kind of
+          harness/fobj_c06.py ("shared" alone: io.BytesIO); "byname" = ArFile(filename=path);
+          "fileobj:<kind>" = ArFile(fileobj=<file / file0 / shortfile object reading the file stored under path>)"""
     count = 0
     per_mode = {}
 
@@ -428,17 +461,28 @@ class Session:
         self.error = None
         self.members = []
         self.ar = None
+        mode, _, kind = mode.partition(":")
         self.mode = mode
-        self.fh = None
+        self.kind = kind
+        self.closers = []
         Session.count += 1
         n = Session.per_mode[mode] = Session.per_mode.get(mode, 0) + 1     # rotates the constructor variants
         self.serial = n
+        fo = None
+        if mode in ("shared", "fileobj"):
+            self.kind = kind = kind or ("bytesio" if mode == "shared" else "file")
+            if mode == "fileobj" and kind not in fobj.PATH_BACKED:
+                raise core.MachineryError("file-object kind %r does not read a path" % (kind,))
+            fo, self.closers = fobj.open_kind(ctx, arch.forms(ctx), kind,
+                                              path=(path or arch.file(ctx)) if mode == "fileobj" else None)
+            kinds = ctx.extra.setdefault("file_object_kinds", {})
+            kinds[kind] = kinds.get(kind, 0) + 1
+            rel = ctx.extra.setdefault("file_object_descriptor_vs_stream", {})
+            r = fobj.fd_relation(fo, len(arch.blob))
+            rel[r] = rel.get(r, 0) + 1
         try:
-            if mode == "shared":
-                self.ar = open_arfile(arch, mode, None, io.BytesIO(arch.blob), n)
-            elif mode == "fileobj":
-                self.fh = open(path or arch.file(ctx), "rb")
-                self.ar = open_arfile(arch, mode, None, self.fh, n)
+            if fo is not None:
+                self.ar = open_arfile(arch, mode, None, fo, n)
             else:
                 self.ar = open_arfile(arch, mode, path or arch.file(ctx), None, n)
             # getmembers() / the members property / iteration are the same list (checked in check_index)
@@ -456,8 +500,11 @@ class Session:
                 m.close()
             except Exception:
                 pass
-        if self.fh is not None:
-            self.fh.close()
+        for c in self.closers:
+            try:
+                c.close()
+            except Exception:
+                pass
 
     def finish(self, ctx):
         """end of a replay: every third by-name session closes its members; the others stay alive
@@ -527,6 +574,23 @@ class Session:
         elif tells != rtells:
             msg = "after %s: tell() of the members is %r; %s %r" % (cs, tells, who, rtells)
         return msg, obs, tells[m]
+
+
+_sparse = [0]
+
+
+def pick_mode(i, arch, fd=None, sparse=False):
+    """opening mode of the i-th case over `arch`: by name for odd i, else through a shared file object whose
+    KIND rotates over everything ArFile(fileobj=...) accepts (fd: the class the specification's case names).
+    The resolved string is what a recorded case stores, so a replayed case uses the same kind.
+    sparse (the bulk replay of all LTS transitions): two of three shared sessions use io.BytesIO."""
+    if i % 2:
+        return "byname"
+    if sparse:
+        _sparse[0] += 1
+        if _sparse[0] % 3:
+            return "shared:bytesio"
+    return "shared:" + fobj.pick_kind(len(arch.blob), fd)
 
 
 def run_ops(ctx, arch, mode, ops, unspecified=()):
@@ -742,12 +806,15 @@ def random_arch(rng, maxmem=5, maxlen=64, nmembers=None):
     return Arch(members, style, encoding=encoding, errors=errors)
 
 
-def random_call(rng, datas, tells, big=False):
-    """one in-domain call (D4) given the current positions of the members"""
+def random_call(rng, datas, tells, big=False, marks=None):
+    """one in-domain call (D4) given the current positions of the members; marks: member -> positions of
+    interest (block boundaries of the archive file falling into the member)"""
     m = rng.randrange(len(datas))
     L = len(datas[m])
     p = tells[m]
     near = [1, 2, 3, max(1, L), L + 1, max(1, L - 1), rng.randrange(1, L + 3)]     # all >= 1 (D4: no read(0))
+    mk = [x + d for x in (marks or {}).get(m, ()) for d in (-1, 0, 1) if x + d >= 0]
+    near += [x - p for x in mk if x - p >= 1]
     if big:                          # arguments around the buffer sizes of the underlying file objects
         near += [4095, 4096, 4097, 8191, 8192, 8193, 65535, 65536, 65537, 131072, 2 * L + 7]
     op = rng.choice(["read", "readn", "readn", "readline", "readline", "readlinen", "readlinen", "readlines",
@@ -761,7 +828,7 @@ def random_call(rng, datas, tells, big=False):
     elif op == "seek":
         wh = rng.randrange(3)
         t = rng.choice([0, rng.randrange(L + 1), rng.randrange(L + 1), L, L + 1, L + 5, max(0, L - 1)]
-                       + ([x for x in (8191, 8192, 8193, 65536) if x <= L + 5] if big else []))
+                       + ([x for x in (8191, 8192, 8193, 65536) if x <= L + 5] if big else []) + mk)
         args = [t - (0 if wh == 0 else p if wh == 1 else L), wh]
     else:
         args = []
@@ -772,11 +839,11 @@ def meta_strs(m):
     return [str(m["owner"]), str(m["group"]), str(m["mtime"])]
 
 
-def record(ctx, arch, mode, calls=None, rng=None, n=0, big=False, log=True):
+def record(ctx, arch, mode, calls=None, rng=None, n=0, big=False, log=True, pre=(), marks=None):
     """execute calls on the real classes and log one event per call. calls = None: n random in-domain
     calls are generated on the fly from the positions of the io.BytesIO references (which follow the
-    real member after the calls with several admissible outcomes). Returns (trace, message of the
-    io.BytesIO cross-check or None, the calls made)."""
+    real member after the calls with several admissible outcomes), preceded by the scripted calls `pre`.
+    Returns (trace, message of the io.BytesIO cross-check or None, the calls made)."""
     spec_mem = [{"name": name_hex(m["name"]), "data": list(m["data"]) if log else [], "meta": meta_strs(m)} for m in arch.members]
     s = Session(ctx, arch, mode)
     events = []
@@ -802,9 +869,11 @@ def record(ctx, arch, mode, calls=None, rng=None, n=0, big=False, log=True):
         events.append(ev)
         if not s.error and s.datas:
             k = 0
-            while (k < n) if calls is None else (k < len(calls)):
-                if calls is None:
-                    m, op, args = random_call(rng, s.datas, [o.tell() for o in s.oracles], big)
+            while (k < n + len(pre)) if calls is None else (k < len(calls)):
+                if calls is None and k < len(pre):
+                    m, op, args = pre[k]
+                elif calls is None:
+                    m, op, args = random_call(rng, s.datas, [o.tell() for o in s.oracles], big, marks)
                 else:
                     m, op, args = calls[k]
                 k += 1
@@ -984,7 +1053,7 @@ def big_leg(ctx, rng, narch, ncalls):
             m.update(name=rng.choice(NAME_POOL), raw=None, data=big_data(rng, n))
             members.append(m)
         arch = Arch(members, rng.choice(["gnu", "bsd"]))
-        mode = ["shared", "byname"][i % 2]
+        mode = pick_mode(i, arch)
         _, omsg, calls = record(ctx, arch, mode, rng=rng, n=ncalls, big=True, log=False)
         nbig += 1
         ctx.case_seen(("big", i), True)
@@ -993,6 +1062,106 @@ def big_leg(ctx, rng, narch, ncalls):
                           "size-stress archive (member sizes %r), %s mode: %s" % (sizes, mode, omsg))
     ctx.extra["size_stress_archives"] = nbig
     return nbig
+
+
+# ------------------------------------------------------------------ block-boundary alignment (SIZE_STRESS part 4)
+
+ALIGN_T = [(1 << k) + d for k in range(9, 18) for d in (-1, 0, 1)]
+ALIGN_WHAT = ["data_end", "line_end", "data_start", "header_start", "archive_end"]
+
+
+def aligned_arch(rng, T, what):
+    """an archive in which a boundary of its structure falls exactly at offset T of the archive FILE:
+    the end of a member's data, the end of a line inside a member, the start of a member's data, the start
+    of a member header, the end of the archive.  Data always starts at even offsets (60-byte headers, pad
+    bytes), so the last three exist for even T only (None otherwise).  Returns (members, marks) with
+    marks: member -> member-relative positions at offset T."""
+    first = 8 + 60                     # offset of the first member's data
+    lines = lambda n: (non_nl(rng, rng.choice([1, 7, 61])) + b"\n") * (n // 2 + 1)
+    if what == "data_end":
+        sizes = [T - first, rng.choice([0, 1, 6])]
+    elif what == "line_end":
+        sizes = [T - first + rng.choice([0, 1, 5, 100]), rng.choice([0, 3])]
+    elif T % 2:
+        return None
+    elif what == "data_start":
+        sizes = [T - first - 60, rng.choice([1, 100, 8193])]
+    elif what == "header_start":
+        sizes = [T - first - rng.choice([0, 1]), 9, 0]
+    else:                              # archive_end
+        sizes = [2, T - first - 2 - 60 - rng.choice([0, 1])]
+    datas = []
+    for i, n in enumerate(sizes):
+        kind = rng.randrange(3)
+        d = bytearray(non_nl(rng, n) if kind == 0 else lines(n)[:n] if kind == 1 else big_data(rng, n))
+        datas.append(d)
+    if what == "line_end":
+        datas[0][T - 1 - first] = 10       # the line ends exactly at T
+        if T - 2 - first >= 0 and rng.random() < 0.5:
+            datas[0][T - 2 - first] = 10   # ... and is a lone newline
+    members, marks, off = [], {}, 8
+    for i, d in enumerate(datas):
+        m = rand_meta(rng)
+        m.update(name=NAME_POOL[i], raw=None, data=bytes(d))
+        members.append(m)
+        off += 60
+        if 0 <= T - off <= len(d) + 1:
+            marks[i] = [T - off]
+        off += len(d) + len(d) % 2
+    where = {"data_end": first + sizes[0], "line_end": T, "data_start": first + sizes[0] + 60,
+             "header_start": first + sizes[0] + sizes[0] % 2, "archive_end": off}[what]
+    if where != T:
+        raise core.MachineryError("aligned_arch(%d, %s): boundary at %d" % (T, what, where))
+    return members, marks
+
+
+def aligned_leg(ctx, rng, quick):
+    """archives with a structural boundary at, one before and one after 2^k (k = 9..17), read through every kind
+    of file object and by name: scripted calls that start, end and cross the boundary, then random ones.  Judged
+    against io.BytesIO like the size-stress leg (same call semantics as the K-scaled TLC cases, sizes TLC cannot scan)."""
+    done = {}
+    if quick:       # 2^k: a line end inside the data + one of the other boundaries; 2^k -+ 1: the two that exist for odd offsets
+        cases = []
+        for i, T in enumerate(ALIGN_T):
+            cases += [(T, "line_end"), (T, ALIGN_WHAT[i % len(ALIGN_WHAT)])] if T % 2 == 0 else [(T, ("data_end", "line_end")[(i // 3) % 2])]
+    else:
+        cases = [(T, w) for r in range(2) for T in ALIGN_T for w in ALIGN_WHAT]
+    for i, (T, what) in enumerate(cases):
+        if len(ctx.violations) >= 5:
+            break
+        built = aligned_arch(rng, T, what)
+        if built is None:
+            continue
+        members, marks = built
+        arch = Arch(members, rng.choice(["gnu", "bsd"]))
+        pre = []
+        by_n = [("readn", [1]), ("readn", [3]), ("readn", [8192]), ("readn", [2])]
+        by_line = [("readline", []), ("readlinen", [2]), ("readlinen", [70000]), ("readlinen", [1])]
+        rest = [("read", []), ("iter", []), ("readlines", []), ("readn", [-1])]
+        for m, xs in sorted(marks.items()):
+            for x in xs:
+                for j, d in enumerate((0, -1, 1, -2)):   # every call form STARTING at, before and after the boundary
+                    if x + d < 0:
+                        continue
+                    for group in (by_n, by_line, rest):
+                        op, args = group[(i + j) % 4 if j else 0]
+                        pre += [(m, "seek", [x + d, 0]), (m, op, list(args))]
+                        if len(members) > 1 and (i + j) % 2:     # another member in between moves a shared file position
+                            pre.append(((m + 1) % len(members), "readn", [1]))
+                        pre.append((m, "readline", []))
+                if x >= 1:                               # reads that END at the boundary
+                    pre += [(m, "seek", [max(0, x - 3), 0]), (m, "readn", [min(3, x)]), (m, "readline", [])]
+        mode = "byname" if i % 4 == 3 else pick_mode(0, arch)
+        _, omsg, calls = record(ctx, arch, mode, rng=rng, n=12, big=True, log=False, pre=pre, marks=marks)
+        done[what] = done.get(what, 0) + 1
+        ctx.case_seen(("aligned", T, what), True)
+        if omsg:
+            ctx.violation({"kind": "calls", "arch": arch.to_json(), "mode": mode, "calls": calls, "big": True,
+                           "aligned": {"offset": T, "boundary": what}},
+                          "archive with its %s at offset %d of the file (member sizes %r), %s mode: %s"
+                          % (what, T, [len(m["data"]) for m in members], mode, omsg))
+    ctx.extra["aligned_cases"] = {"offsets": "2^k-1, 2^k, 2^k+1 for k = 9..17", "per_boundary": done}
+    return sum(done.values())
 
 
 # ------------------------------------------------------------------ archives written by ar(1)
@@ -1081,7 +1250,8 @@ def proc_replay(ctx, edges, versions, script=None, rng=None):
             op, a = e["op"], e["args"]
             if op == "open":
                 p, byname = a
-                s = Session(ctx, versions[(p, cur[p])], "byname" if byname else "fileobj", path=fname[p])
+                s = Session(ctx, versions[(p, cur[p])], "byname" if byname else "fileobj:" + fobj.PATH_BACKED[k % 3],
+                            path=fname[p])
                 s.born = (p, cur[p])
                 objs.append(s)
                 if s.error:
@@ -1222,15 +1392,17 @@ def lts_per_archive(edges):
     return out
 
 
-def negative_control(ctx, base_cfg, const, expect):
+def negative_control(ctx, base_cfg, const, expect, off="TRUE", on="FALSE"):
+    """the design constant `const` (value `off` in the configurations) switched to the defect `on`"""
     cfg = open(os.path.join(core.SPEC, base_cfg)).read()
-    if ("%s = TRUE" % const) not in cfg:
+    if ("%s = %s" % (const, off)) not in cfg:
         raise core.MachineryError("constant %s not found in %s" % (const, base_cfg))
-    r = ctx.tlc("ArMember", cfg.replace("%s = TRUE" % const, "%s = FALSE" % const), count=False, workers=4)
+    r = ctx.tlc("ArMember", cfg.replace("%s = %s" % (const, off), "%s = %s" % (const, on)).replace("Emit = TRUE", "Emit = FALSE"),
+                count=False, workers=4)
     if r.violated not in expect:
-        raise core.MachineryError("spec-level negative control %s = FALSE: expected one of %r violated, TLC says %r"
-                                  % (const, expect, r.violated))
-    ctx.extra.setdefault("spec_negative_controls", {})[const + "=FALSE"] = r.violated
+        raise core.MachineryError("spec-level negative control %s = %s: expected one of %r violated, TLC says %r"
+                                  % (const, on, expect, r.violated))
+    ctx.extra.setdefault("spec_negative_controls", {})["%s=%s" % (const, on)] = r.violated
 
 
 def run(ctx):
@@ -1241,7 +1413,8 @@ def run(ctx):
         "model archives: <= 2 members x <= %d data cells over {newline, other}, index cases <= 3 members x sizes 0/1/2 x 2 names; closed state space: histories of any length over this alphabet" % (2 if quick else 3),
         "domain D4: read()/read(n>=1 or n<0), readline(any n), readlines() without hint, seek to non-negative targets (whence 0/1/2); read(0) excluded; the return value of seek() is not compared",
         "each model cell is concretized to 1-5 bytes (sampled, seeded); member names are ASCII and fit the 16-byte header field",
-        "trusted: TLC, the harness' ar writer, io.BytesIO (second oracle), os.stat for archives written by ar(1)",
+        "trusted: TLC, the harness' ar writer, io.BytesIO (second oracle), os.stat for archives written by ar(1), the standard library's file objects (gzip/bz2/lzma/tarfile/zipfile/tempfile/io) presenting the archive bytes",
+        "file objects given to ArFile(fileobj=) are seekable binary streams whose read(n) returns n bytes unless the stream ends and whose readline(n) honours n; zipfile.ZipExtFile (readline(limit) overshoots on long lines in CPython 3.12) only for archives of <= 500 bytes",
         "process level: members of an ArFile whose path was rewritten after the object was built are unspecified (executed, not judged); every object built after the last rewrite is judged, whatever was opened or left unclosed before",
     ]
     # 1. design level: the implementation-layer model refines the reference (any history), index exact
@@ -1259,6 +1432,9 @@ def run(ctx):
             negative_control(ctx, "MC_ArMember_quick.cfg", "ClampReadline", ("Refines", "SameResult"))
             # __iter__ as before 225a5e1 (one line per iterator) must not refine the reference
             negative_control(ctx, "MC_ArMember_quick.cfg", "IterYieldsAll", ("Refines", "SameResult"))
+            # an index walk that asks the DESCRIPTOR underneath the file object for the size of the archive
+            # must lose members as soon as the descriptor names a smaller file (a decompressing wrapper)
+            negative_control(ctx, "MC_ArMember_index.cfg", "TrustFd", ("IndexExact",), off="FALSE", on="TRUE")
             if not quick:
                 negative_control(ctx, "MC_ArMember_quick.cfg", "PadOdd", ("IndexExact",))
                 negative_control(ctx, "MC_ArMember_quick.cfg", "SeekFirst", ("Refines", "SameResult", "Isolation"))
@@ -1300,7 +1476,7 @@ def run_binding(ctx, quick, rng):
 
     def idx_run():
         try:
-            box["r"] = ctx.tlc_must_hold("ArMember", "MC_ArMember_index.cfg", workers=1, want_tags={"INDEX"})
+            box["r"] = ctx.tlc_must_hold("ArMember", "MC_ArMember_index.cfg", workers=2, want_tags={"INDEX", "IOPEN"})
         except BaseException as e:
             box["error"] = e
 
@@ -1333,7 +1509,6 @@ def run_binding(ctx, quick, rng):
     if not nedges or missing:
         raise core.MachineryError("reference LTS incomplete: %d EDGE lines, actions never taken: %r" % (nedges, missing))
 
-    modes = ["shared", "byname"]
     n_replayed = 0
     phase("tlc_emission")
 
@@ -1346,6 +1521,14 @@ def run_binding(ctx, quick, rng):
             seen.add(k)
             idx_cases.append(c)
     idx_cases.sort(key=lambda c: skey(c["a"]))
+    # how the archive is handed to ArFile is part of TLC's case: (mode, what is underneath the shared file object)
+    combos = {}
+    for c in r_idx.printed.get("IOPEN", []):
+        combos.setdefault(skey(c["a"]), set()).add((c["mode"], c["fd"]))
+    want_combos = sorted([("byname", "same")] + [("shared", k) for k in ("none", "same", "less", "more")])
+    if any(sorted(combos.get(skey(c["a"]), ())) != want_combos for c in idx_cases):
+        raise core.MachineryError("IOPEN lines of the index configuration incomplete: %r" % (sorted(combos.values(), key=sorted)[:2],))
+    per_fd = ctx.extra.setdefault("index_replays_per_opening_form", {})
     nidx = 0
     big_counts = 0
     for ci, c in enumerate(idx_cases):
@@ -1377,13 +1560,23 @@ def run_binding(ctx, quick, rng):
             conc = Conc(rng, [m["data"] for m in c["a"]], canonical, names=[names_of[m["name"]] for m in c["a"]],
                         repeat=repeat, encoding=encoding, errors=errors)
             exp = conc.index_exp(c["idx"])
-            mode = modes[(ci + j) % 2]
+            cmode, cfd = want_combos[(ci * (2 if quick else 6) + j) % len(want_combos)]
+            if cmode == "byname":
+                mode = "byname"
+            else:
+                kind, measured = fobj.pick_kind_for(conc.arch.forms(ctx), cfd)
+                mode = "shared:" + kind
+                if measured is not None and measured != cfd:      # a tiny archive does not shrink
+                    ctx.extra["index_replays_descriptor_class_not_concretizable"] = \
+                        ctx.extra.get("index_replays_descriptor_class_not_concretizable", 0) + 1
+            per_fd[cmode + "/" + cfd] = per_fd.get(cmode + "/" + cfd, 0) + 1
             msg = check_index(ctx, conc.arch, mode, exp)
             nidx += 1
             big_counts += repeat > 1
             ctx.case_seen(("index", skey(c["a"]), j), True)
             if msg:
-                ctx.violation({"kind": "index", "arch": conc.arch.to_json(), "mode": mode, "idx": exp, "model": c},
+                ctx.violation({"kind": "index", "arch": conc.arch.to_json(), "mode": mode, "idx": exp, "model": c,
+                               "opening_form": [cmode, cfd]},
                               "%s mode, %s-style archive (encoding=%r, errors=%r) with %d members %s: %s"
                               % (mode, conc.arch.style, encoding, errors, len(conc.arch.members),
                                  short([(m["name"], len(m["data"])) for m in conc.arch.members], 300), msg))
@@ -1435,9 +1628,9 @@ def run_binding(ctx, quick, rng):
             path = paths[e["_f"]] + [e]
             for j, conc in enumerate(concs):
                 if quick or j > 0:
-                    todo = [modes[(idx + j) % 2]]
+                    todo = [pick_mode(idx + j, conc.arch, sparse=True)]
                 else:
-                    todo = modes          # thorough: the canonical concretization in both modes
+                    todo = [pick_mode(0, conc.arch), "byname"]     # thorough: the canonical concretization in both modes
                 for mode in todo:
                     n_replayed += 1
                     if replay_path(path, conc, mode, "transition"):
@@ -1448,7 +1641,7 @@ def run_binding(ctx, quick, rng):
             if not bad and bigconc is not None and idx % every == ai % every:
                 n_replayed += 1               # size stress: the same abstract case with K-byte cells
                 nbigk += 1
-                if replay_path(path, bigconc, modes[(idx + ai) % 2], "transition (size stress)"):
+                if replay_path(path, bigconc, pick_mode(idx + ai, bigconc.arch), "transition (size stress)"):
                     bad = True
             ctx.case_seen(("edge", k, e["_f"], e["op"], skey(e["args"])), e["from"] != e["to"] or bool(e["res"]["v"]))
             if bad:
@@ -1462,7 +1655,7 @@ def run_binding(ctx, quick, rng):
                     its = [x for x in g.out.get(path[-1]["_t"], []) if x["op"] == "iter"]
                     if its:
                         path = path + [rng.choice(its)]
-                mode = modes[w % 2]
+                mode = pick_mode(w, conc.arch)
                 n_replayed += 1
                 nwalks += 1
                 ctx.case_seen(("walk", k, w), True)
@@ -1476,7 +1669,7 @@ def run_binding(ctx, quick, rng):
                 np2 += 1
                 if (path[0]["op"] == "iter" and not ITER_STRICT[0]) or np2 % 2:
                     continue
-                mode = modes[(npaths2 + np2 // 2) % 2]
+                mode = pick_mode(npaths2 + np2 // 2, concs[0].arch)
                 npaths2 += 1
                 n_replayed += 1
                 if replay_path(path, concs[0], mode, "path"):
@@ -1504,7 +1697,7 @@ def run_binding(ctx, quick, rng):
             arch = random_arch(rng, nmembers=rng.choice([99, 100, 101]))      # count stress
         else:
             arch = random_arch(rng, maxlen=64 if i % 10 else 257)
-        jobs.append((arch, modes[i % 2], nops))
+        jobs.append((arch, pick_mode(i, arch), nops))
     traces = trace_leg(ctx, jobs, "random", rng)
     if traces:
         t = max(traces[:20], key=lambda t: len(t["mem"]) if len(t["mem"]) < 20 else 0)
@@ -1516,13 +1709,16 @@ def run_binding(ctx, quick, rng):
     n_big = big_leg(ctx, rng, 30 if quick else 400, 40 if quick else 60)
     ctx.traces += n_big
     phase("size_stress_leg")
+    ctx.traces += aligned_leg(ctx, rng, quick)
+    phase("aligned_leg")
 
     # 5. thorough: archives written by ar(1)
     if not quick:
         if os.path.exists(AR_BIN):
             jobs = []
             for i in range(150):
-                jobs.append((ar_binary_archive(ctx, rng, i), modes[i % 2], 25))
+                a = ar_binary_archive(ctx, rng, i)
+                jobs.append((a, pick_mode(i, a), 25))
             trace_leg(ctx, jobs, "ar_binary", rng)
             ctx.extra["ar_binary"] = "archives written by %s qcUS" % AR_BIN
         else:
